@@ -1,4 +1,7 @@
 """Tagged harness branches of spec/Split.tla / SplitCT.tla -> real objects."""
+import signal
+import threading
+
 NONE = -1000
 
 
@@ -8,19 +11,19 @@ def tag(b, k, p):
 
 def untag(v):
     """Real value yielded by a harness branch -> spec record."""
-    if isinstance(v, tuple) and len(v) == 3 and isinstance(v[2], tuple):
+    if isinstance(v, tuple) and len(v) == 3 and isinstance(v[2], tuple) and isinstance(v[1], str):
         return {"b": v[0], "k": v[1], "p": list(v[2])}
     return {"b": 0, "k": "id", "p": [v]}
 
 
 class TSrc(object):
-    def __init__(self, b):
-        self.b, self.calls = b, 0
+    def __init__(self, b, m=2):
+        self.b, self.m, self.calls = b, m, 0
 
     def __call__(self):
         self.calls += 1
-        yield tag(self.b, "s", (1,))
-        yield tag(self.b, "s", (2,))
+        for i in range(1, self.m + 1):
+            yield tag(self.b, "s", (i,))
 
 
 class TFill(object):
@@ -44,6 +47,9 @@ class TFill(object):
         else:
             for i in range(1, self.m + 1):
                 yield tag(self.b, k, [i] + self.filled)
+
+    def hreset(self):
+        self.filled, self.nf = [], 0
 
 
 class TFC(TFill):
@@ -87,40 +93,213 @@ class TSeq(object):
         yield tag(self.b, "end", (n,))
 
 
+class TMap(object):
+    """Callable element (form "attr" needs an object that can carry data attributes)."""
+
+    def __init__(self, b):
+        self.b = b
+
+    def __call__(self, v):
+        return tag(self.b, "m", (v,))
+
+
+def _pre(v):
+    return v + 100
+
+
+def _post(r):
+    return tag(r[0], r[1] + "p", r[2])
+
+
+def _tail(r):
+    return tag(r[0], "st", r[2])
+
+
+def _extract(r):
+    return r[2][0]
+
+
+class SliceReset(object):
+    """Harness-side reset of a Slice used as a fill_into element (it has no reset of its own)."""
+
+    def __init__(self, sl, stop):
+        self.sl, self.stop = sl, stop
+
+    def hreset(self):
+        self.sl.__init__(self.stop)
+
+
+class Builder(object):
+    """Builds the real branch objects of a list of kind records; remembers what the harness must reset
+    between two runs of the same Split object."""
+
+    def __init__(self):
+        self.resettable = []
+
+    def hreset(self):
+        for el in self.resettable:
+            el.hreset()
+
+    def element(self, b, kind):
+        t = kind["t"]
+        stop = None if kind.get("stop", NONE) == NONE else kind["stop"]
+        m = None if kind.get("m", NONE) == NONE else kind["m"]
+        if t in ("fc", "fr"):
+            el = (TFC if t == "fc" else TFR)(b, stop, m)
+            self.resettable.append(el)
+            return el
+        if t == "map":
+            return TMap(b)
+        if t == "filt":
+            return TFilt(b)
+        if t == "seq":
+            return TSeq(b)
+        raise ValueError(kind)
+
+    def branch(self, b, kind):
+        import lena.core
+        import lena.flow
+        t, form = kind["t"], kind.get("form", "el")
+        if t == "nest":
+            ibs = kind.get("ibs", NONE)
+            return lena.core.Split([self.branch(10 * b + j + 1, k) for j, k in enumerate(kind["sub"])],
+                                   bufsize=None if ibs == NONE else ibs)
+        if t == "src":
+            m = 2 if kind.get("m", NONE) == NONE else kind["m"]
+            gen = TSrc(b, m)
+            if form == "el":
+                return lena.core.Source(gen)
+            if form == "obj":
+                return lena.core.Source(gen, _tail)
+            if form == "sub":
+                class MySource(lena.core.Source):
+                    pass
+                return MySource(gen)
+            if form == "fct":
+                fc = TFC(b)
+                self.resettable.append(fc)
+                return lena.core.Source(gen, _extract, fc)
+            raise ValueError(kind)
+        if form == "sl":
+            # the LenaStopFill comes from a fill_into element in front of a never-stopping element
+            el = self.element(b, dict(kind, stop=NONE))
+            sl = lena.flow.Slice(kind["stop"])
+            self.resettable.append(SliceReset(sl, kind["stop"]))
+            return (sl, el)
+        el = self.element(b, kind)
+        if form == "el":
+            if t == "map":
+                return lambda v: tag(b, "m", (v,))
+            return el
+        if form == "tup":
+            return (el,)
+        if form == "pp":
+            return (_pre, el, _post)
+        if form == "attr":
+            # data attributes named like methods must not change the classification: fill is not callable
+            el.fill, el.compute, el.request = 0, (lambda: iter(())), (lambda: iter(()))
+            return el
+        if form == "attr2":
+            # ... nor are compute and request
+            el.fill, el.compute, el.request = (lambda v: None), None, "request"
+            return el
+        if form == "obj":
+            if t == "fc":
+                return lena.core.FillComputeSeq(el)
+            if t == "fr":
+                return lena.core.FillRequestSeq(el, reset=False, buffer_input=True)
+            return lena.core.Sequence(el)
+        raise ValueError(kind)
+
+
 def build_branch(b, kind):
-    import lena.core
-    t = kind["t"]
-    stop = None if kind.get("stop", NONE) == NONE else kind["stop"]
-    if t == "src":
-        return lena.core.Source(TSrc(b))
-    if t == "fc":
-        return TFC(b, stop)
-    if t == "fr":
-        return TFR(b, stop)
-    if t == "map":
-        return lambda v: tag(b, "m", (v,))
-    if t == "filt":
-        return TFilt(b)
-    if t == "seq":
-        return TSeq(b)
+    return Builder().branch(b, kind)
+
+
+class Watchdog(Exception):
+    pass
+
+
+WATCHDOG = {"hit": False}     # once a run had to be interrupted, container flows are no longer tried
+
+
+class deadline(object):
+    """A broken scheduler may loop for ever (a container flow read from its start for every block):
+    bound every run by an alarm (main thread only; elsewhere no bound)."""
+
+    def __init__(self, seconds):
+        self.seconds = seconds
+        self.on = hasattr(signal, "setitimer") and threading.current_thread() is threading.main_thread()
+
+    def _fire(self, *args):
+        WATCHDOG["hit"] = True
+        raise Watchdog("run did not finish within %s s" % self.seconds)
+
+    def __enter__(self):
+        if self.on:
+            self.old = signal.signal(signal.SIGALRM, self._fire)
+            signal.setitimer(signal.ITIMER_REAL, self.seconds)
+        return self
+
+    def __exit__(self, *exc):
+        if self.on:
+            signal.setitimer(signal.ITIMER_REAL, 0)
+            signal.signal(signal.SIGALRM, self.old)
+        return False
+
+
+FLOW_KINDS = ("iter", "list", "tuple", "range", "gen")
+
+
+def make_flow(values, kind="iter"):
+    if kind == "iter":
+        return iter(values)
+    if kind == "list":
+        return list(values)
+    if kind == "tuple":
+        return tuple(values)
+    if kind == "range":
+        assert list(values) == list(range(len(values)))
+        return range(len(values))
+    if kind == "gen":
+        return (v for v in values)
     raise ValueError(kind)
 
 
-def hreset(el):
-    """Harness-side reset of a tagged branch element between two runs of the same Split object."""
-    if isinstance(el, TFill):
-        el.filled, el.nf = [], 0
+def take(gen, k):
+    out = []
+    for _ in range(k):
+        out.append(next(gen))
+    return out
 
 
-def run_split(brs, n, bs, copy_buf=True, runs=1):
+class FlowBoom(Exception):
+    pass
+
+
+def raising_flow(n, at):
+    for i in range(n):
+        if i == at:
+            raise FlowBoom(at)
+        yield i
+
+
+def make_split(brs, bs, copy_buf=True):
+    import lena.core
+    bld = Builder()
+    els = [bld.branch(i + 1, k) for i, k in enumerate(brs)]
+    s = lena.core.Split(els, bufsize=None if bs == NONE else bs, copy_buf=copy_buf)
+    return s, bld
+
+
+def run_split(brs, n, bs, copy_buf=True, runs=1, flow="iter", values=None):
     """Run the real Split; with runs > 1 the SAME Split object is run again on the same flow (the
     tagged elements are reset by the harness in between) and the list of all outputs is returned."""
-    import lena.core
-    els = [build_branch(i + 1, k) for i, k in enumerate(brs)]
-    s = lena.core.Split(els, bufsize=None if bs == NONE else bs, copy_buf=copy_buf)
+    s, bld = make_split(brs, bs, copy_buf)
+    vals = list(range(n)) if values is None else values
     outs = []
     for _ in range(runs):
-        outs.append([untag(v) for v in s.run(iter(range(n)))])
-        for el in els:
-            hreset(el)
+        with deadline(3):
+            outs.append([untag(v) for v in s.run(make_flow(vals, flow))])
+        bld.hreset()
     return outs[0] if runs == 1 else outs
